@@ -29,7 +29,7 @@ From PW Require Import Base.
 
 Inductive isig := IRun | IAcc.
 Inductive pkind := PNone | PWf | PMacro.
-Inductive err := ECyclic | EExecutor | EReady | EUser | EFailedChild | EFuel.
+Inductive err := ECyclic | EExecutor | ENotSiblings | EReady | EUser | EFailedChild | EFuel.
 Inductive res := Ok | Err (e : err).
 
 Definition isig_eqb a b := match a, b with IRun, IRun | IAcc, IAcc => true | _, _ => false end.
@@ -49,7 +49,9 @@ Record scope := mkScope {
   par : pkind;                       (* what the parent of these nodes is                 *)
   starting : list nat;               (* parent.starting_nodes                             *)
   automate : bool;                   (* parent.automate_execution (Workflow parents)      *)
-  pfailed : bool                     (* parent.failed for a (root) Workflow parent        *)
+  pfailed : bool;                    (* parent.failed for a (root) Workflow parent        *)
+  own : nat -> nat                   (* who owns the node: data connections may reach nodes of
+                                        another composite (a different number than the target's) *)
 }.
 
 (* output signals: ran / failed of node v *)
@@ -60,23 +62,23 @@ Definition fupd {A} (f : nat -> A) (i : nat) (v : A) : nat -> A :=
   fun j => if Nat.eqb j i then v else f j.
 
 Definition set_lbl sc f := mkScope f (ups sc) (c_run sc) (c_acc sc) (c_ran sc) (recv sc) (exe sc) (bad sc)
-                                   (failed sc) (par sc) (starting sc) (automate sc) (pfailed sc).
+                                   (failed sc) (par sc) (starting sc) (automate sc) (pfailed sc) (own sc).
 Definition set_run sc f := mkScope (lbl sc) (ups sc) f (c_acc sc) (c_ran sc) (recv sc) (exe sc) (bad sc)
-                                   (failed sc) (par sc) (starting sc) (automate sc) (pfailed sc).
+                                   (failed sc) (par sc) (starting sc) (automate sc) (pfailed sc) (own sc).
 Definition set_acc sc f := mkScope (lbl sc) (ups sc) (c_run sc) f (c_ran sc) (recv sc) (exe sc) (bad sc)
-                                   (failed sc) (par sc) (starting sc) (automate sc) (pfailed sc).
+                                   (failed sc) (par sc) (starting sc) (automate sc) (pfailed sc) (own sc).
 Definition set_ran sc f := mkScope (lbl sc) (ups sc) (c_run sc) (c_acc sc) f (recv sc) (exe sc) (bad sc)
-                                   (failed sc) (par sc) (starting sc) (automate sc) (pfailed sc).
+                                   (failed sc) (par sc) (starting sc) (automate sc) (pfailed sc) (own sc).
 Definition set_recv sc f := mkScope (lbl sc) (ups sc) (c_run sc) (c_acc sc) (c_ran sc) f (exe sc) (bad sc)
-                                    (failed sc) (par sc) (starting sc) (automate sc) (pfailed sc).
+                                    (failed sc) (par sc) (starting sc) (automate sc) (pfailed sc) (own sc).
 Definition set_failed sc f := mkScope (lbl sc) (ups sc) (c_run sc) (c_acc sc) (c_ran sc) (recv sc) (exe sc) (bad sc)
-                                      f (par sc) (starting sc) (automate sc) (pfailed sc).
+                                      f (par sc) (starting sc) (automate sc) (pfailed sc) (own sc).
 Definition set_starting sc l := mkScope (lbl sc) (ups sc) (c_run sc) (c_acc sc) (c_ran sc) (recv sc) (exe sc) (bad sc)
-                                        (failed sc) (par sc) l (automate sc) (pfailed sc).
+                                        (failed sc) (par sc) l (automate sc) (pfailed sc) (own sc).
 Definition set_automate sc b := mkScope (lbl sc) (ups sc) (c_run sc) (c_acc sc) (c_ran sc) (recv sc) (exe sc) (bad sc)
-                                        (failed sc) (par sc) (starting sc) b (pfailed sc).
+                                        (failed sc) (par sc) (starting sc) b (pfailed sc) (own sc).
 Definition set_pfailed sc b := mkScope (lbl sc) (ups sc) (c_run sc) (c_acc sc) (c_ran sc) (recv sc) (exe sc) (bad sc)
-                                       (failed sc) (par sc) (starting sc) (automate sc) b.
+                                       (failed sc) (par sc) (starting sc) (automate sc) b (own sc).
 
 (* ---- channels.py: connect / disconnect on signal channels ---------------------------- *)
 Definition conns_in sc (r : nat) (s : isig) : list nat :=
@@ -185,6 +187,9 @@ Fixpoint layers (fuel : nat) (up : nat -> list nat) (le : nat -> nat -> bool) (r
 
 (* nodes_to_data_digraph raises when a node is among its own dependencies *)
 Definition self_dep sc (D : list nat) : bool := existsb (fun v => memn v (ups sc v)) D.
+
+(* nodes_to_data_digraph first of all insists that the nodes all have the same parent *)
+Definition siblings sc (k : nat) (D : list nat) : bool := forallb (fun v => Nat.eqb (own sc v) (own sc k)) D.
 
 Definition linear_order sc (D : list nat) : option (list nat) :=
   if self_dep sc D then None else layers (S (List.length D)) (ups sc) (lab_le (lbl sc)) D.
@@ -366,9 +371,12 @@ Definition level_pull (fuel lv : nat) sc (k : nat) (up : upper) : scope * upper 
       let label_map := lbl sc in
       let sc1 := relabel sc D in
       let '(sc2, pairs) := wrap_disconnect sc1 D in
-      match linear_order sc2 D with
-      | None =>       (* the helper re-connects what it broke, run_data_tree restores the labels *)
-        (restore_labels (reconnect_all sc2 pairs) D label_map, up, [], Err ECyclic)
+      match (if siblings sc k D then linear_order sc2 D else None) with
+      | None =>       (* the helper re-connects what it broke, run_data_tree restores the labels;
+                         the exception is the helper's: ValueError "must all be siblings" when a data
+                         connection crosses composites, else CircularDataFlowError *)
+        (restore_labels (reconnect_all sc2 pairs) D label_map, up, [],
+         Err (if siblings sc k D then ECyclic else ENotSiblings))
       | Some order =>
         let sc3 := chain sc2 order in
         let saved := starting sc3 in
@@ -430,6 +438,7 @@ Definition obs_res (x : res) : obs :=
   | Ok => OS "ok"
   | Err ECyclic => OS "CircularDataFlowError"
   | Err EExecutor => OS "ValueError"
+  | Err ENotSiblings => OS "ValueError"
   | Err EReady => OS "ReadinessError"
   | Err EUser => OS "RuntimeError"
   | Err EFailedChild => OS "FailedChildError"
